@@ -9,6 +9,7 @@ import (
 	"github.com/fiorix/go-diameter/v4/diam"
 	"github.com/fiorix/go-diameter/v4/diam/datatype"
 	"github.com/fiorix/go-diameter/v4/diam/sm"
+	"github.com/fiorix/go-diameter/v4/diam/sm/smpeer"
 	"pgregory.net/rapid"
 
 	"verif/internal/ev"
@@ -26,7 +27,13 @@ type MConn struct {
 	Accept   bool   `json:"accept"` // acceptable CER (Auth 4) or one without common application (Auth 999)
 	HbH      uint32 `json:"hbh"`
 	E2E      uint32 `json:"e2e"`
+	App      int    `json:"app"` // which supported application an acceptable CER advertises: 0 auth 4, 1 acct 3, 2 auth 16777251
 }
+
+var multiApps = []struct {
+	code uint32
+	id   uint32
+}{{cAuthAppID, 4}, {cAcctAppID, 3}, {cAuthAppID, 16777251}}
 
 type MCase struct {
 	Conns []MConn `json:"conns"`
@@ -47,6 +54,20 @@ func runMulti(c MCase) *ev.Failure {
 			}
 		}
 	}()
+	// a gated application handler that reports the metadata of the connection it runs on
+	type seen struct {
+		remote string
+		host   string
+		apps   []uint32
+	}
+	seenc := make(chan seen, 16)
+	machine.HandleFunc("RAR", func(cn diam.Conn, m *diam.Message) {
+		if meta, ok := smpeer.FromContext(cn.Context()); ok {
+			seenc <- seen{cn.RemoteAddr().String(), string(meta.OriginHost), append([]uint32{}, meta.Applications...)}
+		} else {
+			seenc <- seen{remote: cn.RemoteAddr().String()}
+		}
+	})
 	var open []*memnet.Conn
 	defer func() {
 		for _, mc := range open {
@@ -63,12 +84,12 @@ func runMulti(c MCase) *ev.Failure {
 		if _, err := diam.NewConn(mc, "", machine, nil); err != nil {
 			return ev.Failf("harness-conn", "%v", err)
 		}
-		app := uint32(4)
+		appAVP := u32(multiApps[cc.App%len(multiApps)].code, multiApps[cc.App%len(multiApps)].id)
 		if !cc.Accept {
-			app = 999
+			appAVP = u32(cAuthAppID, 999)
 		}
-		mc.Feed(message(flagRequest, cmdCE, 0, cc.HbH, cc.E2E, str(cOriginHost, peerHost), str(cOriginRealm, peerRealm),
-			addr4(cHostIPAddress, 10, 9, 8, 7), u32(cVendorID, 99), leaf(cProductName, 0, []byte("c11-peer")), u32(cAuthAppID, app)))
+		mc.Feed(message(flagRequest, cmdCE, 0, cc.HbH, cc.E2E, str(cOriginHost, fmt.Sprintf("peer%d.c11.example", i)), str(cOriginRealm, peerRealm),
+			addr4(cHostIPAddress, 10, 9, 8, 7), u32(cVendorID, 99), leaf(cProductName, 0, []byte("c11-peer")), appAVP))
 		if !mc.WaitWrites(1, 5*time.Second) {
 			return ev.Failf("multi:no-cea", "connection %d (local endpoint %s): no CEA was written within 5 s", i, cc.Endpoint)
 		}
@@ -106,6 +127,24 @@ func runMulti(c MCase) *ev.Failure {
 			}
 		}
 	}
+	// after ALL handshakes: every accepted connection still carries ITS peer's identity and
+	// shared application ids as metadata (not those of a peer that connected later)
+	for i, cc := range c.Conns {
+		if !cc.Accept {
+			continue
+		}
+		open[i].Feed(probe())
+		select {
+		case sn := <-seenc:
+			want := multiApps[cc.App%len(multiApps)].id
+			wantHost := fmt.Sprintf("peer%d.c11.example", i)
+			if sn.remote != open[i].Remote.String() || sn.host != wantHost || len(sn.apps) != 1 || sn.apps[0] != want {
+				return ev.Failf("multi:metadata-of-another-connection", "connection %d (peer %s, which advertised application %d): after %d connections had completed their handshakes its metadata reads host %q applications %v", i, wantHost, want, len(c.Conns), sn.host, sn.apps)
+			}
+		case <-time.After(5 * time.Second):
+			return ev.Failf("multi:handler-not-invoked", "connection %d completed its handshake but the gated application handler did not run for a later request", i)
+		}
+	}
 	return nil
 }
 
@@ -124,7 +163,7 @@ var propMulti = ev.Register(&ev.Prop[MCase]{
 		var c MCase
 		n := rapid.IntRange(2, 4).Draw(t, "conns")
 		for i := 0; i < n; i++ {
-			c.Conns = append(c.Conns, MConn{Endpoint: rapid.SampledFrom(multiEndpoints).Draw(t, "endpoint"), Accept: rapid.IntRange(0, 3).Draw(t, "accept") != 0,
+			c.Conns = append(c.Conns, MConn{App: rapid.IntRange(0, 2).Draw(t, "app"), Endpoint: rapid.SampledFrom(multiEndpoints).Draw(t, "endpoint"), Accept: rapid.IntRange(0, 3).Draw(t, "accept") != 0,
 				HbH: rapid.SampledFrom([]uint32{0, 1, 0xffffffff, 77}).Draw(t, "hbh"), E2E: rapid.SampledFrom([]uint32{0, 2, 0x80000000, 78}).Draw(t, "e2e")})
 		}
 		return c
